@@ -17,4 +17,16 @@ void disarm();
 long fired();           // number of injected failures since the last arm()
 long calls(int fn);     // eligible calls of fn seen since process start
 long totalInjected();
+
+// ---- step hook ("a racing creator/remover between the library's system calls"): while a hook is set, the shim calls it immediately before forwarding
+// every eligible call of the traced path family (stat/lstat/access/opendir/mkdir/rmdir/unlink; T_* below) with the 1-based number of that call since
+// setStepHook() and the path argument, and `post` (may be 0) right after it with the result. File-system calls made by the hook itself go straight to libc
+// (they are neither traced nor counted nor subject to failpoints). Single-threaded use only; never set while other threads call into the library.
+enum Traced { T_STAT, T_LSTAT, T_ACCESS, T_OPENDIR, T_MKDIR, T_RMDIR, T_UNLINK, T_N };
+const char* tracedName(int t);
+typedef void (*StepHook)(int traced, const char* path, long step);
+typedef void (*StepPost)(int traced, const char* path, long step, int ret, int err);
+void setStepHook(StepHook pre, StepPost post);
+void clearStepHook();
+long steps();           // traced calls seen since the last setStepHook()
 }
